@@ -1,17 +1,17 @@
 SPECIFICATION Spec
 CONSTANTS
-  NTop = 3
-  KindsCb = {"noop", "retval", "raise", "cancel", "failfut", "failcoro", "addcb", "addfut", "addto", "rm", "resolve"}
-  KindsTo = {"noop", "raise", "failfut", "addcb", "addto", "rm", "resolve"}
-  KindsFut = {"noop", "raise", "addcb"}
-  Delays = {0, 1, 2}
+  NTop = 2
+  KindsCb = {"noop", "raise", "failfut", "addcb", "addto", "rm", "resolve"}
+  KindsTo = {"noop", "raise", "addcb", "addto", "rm"}
+  KindsFut = {"noop", "addcb"}
+  Delays = {0, 1}
   ChildDelays = {0, 1}
   Forms = {"x"}
   CbForms = {"x"}
   Offs = {0}
   MaxAdvance = 2
-  MaxNow = 3
-  MaxIter = 4
+  MaxNow = 2
+  MaxIter = 3
   MaxLat = 3
 CONSTRAINT StateBound
 VIEW View
